@@ -1,4 +1,4 @@
-"""C03 -- extract preserves behaviour or is refused (VGC rules R03.1-R03.17)."""
+"""C03 -- extract preserves behaviour or is refused (VGC rules R03.1-R03.18)."""
 from __future__ import annotations
 
 import ast
